@@ -27,7 +27,7 @@ def gen_leaf(rng, common, kinds, leaf_kind=None, small=False):
         if lk == "scalar":
             shape = ()
         s = gen.gen_const_struct(rng, shape=shape, kind=kind)
-    s["as"] = lk
+    s["as"] = "poly_T" if lk == "poly" and len(s["shape"]) >= 2 and rng.random() < .15 else lk
     return s
 
 
@@ -82,7 +82,7 @@ def bound_of(tree, env):
 def poly_side(tree, env):
     """does evaluating this subtree with Python operators certainly go through numpoly?"""
     if tree[0] == "leaf":
-        return env[tree[1]]["as"] == "poly"
+        return env[tree[1]]["as"] in ("poly", "poly_T")
     if tree[0] in ("neg", "pos", "pow"):
         return poly_side(tree[1], env)
     return poly_side(tree[1], env) or poly_side(tree[2], env)
